@@ -91,6 +91,12 @@ def _decoder_not_reused(kind_i, p1, fr2, b2, cuts, raw2=False):
     return c08._coded_then_plain(kind_i, p1, fr2, b2, cuts, raw2)
 
 
+def _coded_chunks(kind_i, payload, split, cuts):
+    """Pieces = HTTP chunks (harness shared with C08): a chunk that decodes to nothing yet is not the end of anything."""
+    from harness import c08
+    return c08._coded_chunks(kind_i, payload, split, cuts)
+
+
 def _coded_overrun(kind_i, payload, cuts, overrun):
     """A coded, length-delimited body followed by surplus bytes, through Stream.read_body (harness shared with C08)."""
     from harness import c08
@@ -244,6 +250,14 @@ HARNESSES = [
       funcs=['wpull/protocol/http/stream.py:Stream._setup_decompressor', 'wpull/protocol/http/stream.py:Stream.read_body'],
       doc='identity bodies: after a gzip / deflate coded response the next, identity, response on the same Stream is delivered verbatim '
           '(the finished decoder of the first body is not fed the second)'),
+    H('coded_chunks', '_coded_chunks', 'kind_i: int, payload: bytes, split: int, cuts: List[int]',
+      pre={'quick': ['0 <= kind_i <= 2 and len(payload) <= 1 and 1 <= split <= 24 and len(cuts) == 0'],
+           'thorough': ['0 <= kind_i <= 2 and len(payload) <= 2 and 1 <= split <= 24 and len(cuts) <= 2']},
+      parts=[{'tag': k, 'fix': {'kind_i': str(i)}} for i, k in enumerate(['gzip', 'zlib', 'raw'])],
+      timeout={'quick': 250, 'thorough': 1200}, samples=[(0, b'a', 10, []), (1, b'a', 1, [])], need=['decoded'],
+      funcs=['wpull/protocol/http/stream.py:Stream._read_body_by_chunk', 'wpull/protocol/http/stream.py:Stream._decompress_data'],
+      doc='the pieces are two HTTP chunks with the boundary at every position of the encoded stream (first chunk = the bare gzip header, '
+          'one byte ...): after the final flush the decoded body is exactly the payload'),
     H('coded_overrun', '_coded_overrun', 'kind_i: int, payload: bytes, cuts: List[int], overrun: int',
       pre={'quick': ['0 <= kind_i <= 2 and len(payload) <= 1 and len(cuts) <= 1 and 1 <= overrun <= 2'],
            'thorough': ['0 <= kind_i <= 2 and len(payload) <= 3 and len(cuts) <= 3 and 1 <= overrun <= 2']},
